@@ -12,6 +12,7 @@ RULE = ("one case = (method, dtype, span sign pattern, initial-dt class and sign
         "non-trivial = >=3 rows recorded by a call that returned; distinct by (method,dtype,span,dt class,history)")
 ASSUMPTIONS = ["dt is at least 64 ulp of the largest time in the span (otherwise time cannot advance in that precision)",
                "a run exceeding its logical step budget (20x the expected step count) is a violation of 'ends at the target' (bounded progress)"]
+RULE += " Strata added in the fourth seeding round: Right-hand sides defined on part of the state space (long trial steps with NaN error estimates) and an idle component under a purely relative tolerance: success implies finite, accurate rows."
 FLOORS = {"quick": {"calls_checked": 150, "backward_calls": 40, "mixed_sign_calls": 30, "dt_gt_span_calls": 20, "buffer_growth_runs": 2, "reversal_calls": 5, "closing_rejection_calls": 8, "calls_after_tf_change": 15, "noop_calls": 3, "calls_with_a_long_closing_step_far_from_the_origin": 90, "restricted_domain_calls": 20},
           "thorough": {"calls_checked": 1500, "backward_calls": 400, "mixed_sign_calls": 300, "dt_gt_span_calls": 120, "buffer_growth_runs": 8, "reversal_calls": 50, "closing_rejection_calls": 8, "calls_after_tf_change": 150, "noop_calls": 30, "calls_with_a_long_closing_step_far_from_the_origin": 150, "restricted_domain_calls": 80}}
 SPANS = [(0.0, 2.0), (-5.0, 1.0), (-10.0, -5.0), (10.0, 5.0), (1.0, -5.0), (3.0, -3.0), (0.0, -2.0), (-2.0, 0.0),
